@@ -551,17 +551,24 @@ Section ReasonConform.
   Qed.
 End ReasonConform.
 
+Lemma disconnect_spec_ok : forallb (entry_spec_ok 14) disconnect_map = true.
+Proof. vm_compute. reflexivity. Qed.
+
 Theorem conform_disconnect p : dom_disconnect p -> conforms KDisconnect p.
 Proof.
   intros [Hfx Hf Hups Hsize].
-  destruct (reason_conform KDisconnect [] eq_refl (or_introl eq_refl) (conj eq_refl (conj eq_refl eq_refl))
-              eq_refl eq_refl p Hfx Hf Hups Hsize) as [form [body [Evh [Eb Hok]]]].
+  destruct (reason_conform KDisconnect disconnect_map eq_refl (or_introl eq_refl) disconnect_map_ok disconnect_spec_ok eq_refl
+              p Hfx Hf Hups Hsize) as [form [body [Evh [Eb Hok]]]].
   apply (conforms_intro KDisconnect p disconnect_vh body
            {| af_type := 14; af_flags := 0;
-              af_body := BDisc form (getN (M F_reasonCode) p) (section_props [] false NoSub p) |});
+              af_body := BDisc form (getN (M F_reasonCode) p) (section_props disconnect_map false NoSub p) |});
     try discriminate; try reflexivity; try assumption.
+  assert (Hnd : NoDup (map eid disconnect_map)) by (apply nodupb_N_ok; apply disconnect_map_ok).
   unfold frame_obs. cbn [af_body af_type N.eqb Pos.eqb].
-  rewrite (sobs_pairs [] false NoSub p). reflexivity.
+  rewrite (sobs_num disconnect_map false NoSub p Hnd 17 (M F_sessionExpiryInterval) U32) by (cbn; tauto || discriminate).
+  rewrite (sobs_str disconnect_map false NoSub p Hnd 31 (M F_reasonString)) by (cbn; tauto || discriminate).
+  rewrite (sobs_str disconnect_map false NoSub p Hnd 28 (M F_serverReference)) by (cbn; tauto || discriminate).
+  rewrite (sobs_pairs disconnect_map false NoSub p). reflexivity.
 Qed.
 
 Lemma auth_spec_ok : forallb (entry_spec_ok 15) auth_map = true.
